@@ -2,6 +2,8 @@
 
 Decided: the reducer (a sequential fold) can never hold more than num_workers in-progress
 entries per step, each on a distinct id in [0, num_workers), and a worker task is created
+Also (R3) an entry is re-run on its own slot only when it is the execution selected by the worker id of the step-result tick being
+reduced (its invocation has ended); a re-run of a still-running entry is a second invocation invisible in in_progress.
 only for such an entry.  Not decided: overlap of a cancelled-but-unfinished task with its
 successor at shutdown; sync steps in executor threads.
 """
@@ -58,7 +60,11 @@ def run(chk) -> None:
                 st = enclosing_stmt(node)
                 val = getattr(st, "value", None)
                 empty = isinstance(val, (ast.List, ast.Tuple)) and not val.elts or (isinstance(val, ast.Call) and call_name(val) == "list" and not val.args)
-                if empty:
+                # a selection from the list itself (`[w for w in x.in_progress if …]`, one generator, the element unchanged) can only shrink it
+                recv0 = ast.unparse(node.value) if isinstance(node, ast.Attribute) else ""
+                shrink = (isinstance(val, ast.ListComp) and len(val.generators) == 1 and isinstance(val.elt, ast.Name) and isinstance(val.generators[0].target, ast.Name)
+                          and val.elt.id == val.generators[0].target.id and ast.unparse(val.generators[0].iter) == f"{recv0}.in_progress")
+                if empty or shrink:
                     continue
                 grow_sites.append((mod, fn, node, kind))
             elif kind in GROW:
@@ -129,6 +135,11 @@ def run(chk) -> None:
                        and isinstance(n.func.value, ast.Attribute) and n.func.value.attr == "in_progress"]
             src_def = expand(ast.Name(id=holder, ctx=ast.Load()), st)
             from_live = "in_progress" in ast.unparse(src_def)
+            if not from_live and isinstance(idv.value, ast.Name):
+                # looked up with a loop instead of next(...): the entry is drawn from in_progress by iteration
+                from ..astx import dep_slice as _ds
+                _sl = _ds(fn, idv.value.id)
+                from_live = any(a.endswith(".in_progress") for a in _sl.attrs()) and not any(last(call_name(c_) or "") == "InProgressState" for c_ in _sl.calls())
             flag_ok = True
             for r in removes:
                 rn = cfg.nodes_of(enclosing_stmt(r))
@@ -137,6 +148,17 @@ def run(chk) -> None:
                 flag_ok = flag_ok and _removal_excluded_by_flag(fn, st, r)
             ok = from_live and flag_ok
             reason = "" if ok else f"re-used id of `{holder}` but the entry can be removed on the same path (from_live={from_live}, flag={flag_ok})"
+            # the slot of a live entry is free for a re-run only when the invocation occupying it has just reported: the entry
+            # must be the one selected by the worker id of the step-result tick being reduced
+            if ok:
+                from ..astx import dep_slice
+                result_ticks = [a.arg for a in fn.args.posonlyargs + fn.args.args + fn.args.kwonlyargs if a.annotation is not None and "TickStepResult" in ast.unparse(a.annotation)]
+                sl = dep_slice(fn, idv.value) if not isinstance(idv.value, ast.Name) else dep_slice(fn, idv.value.id)
+                finished = any(f"{t}.worker_id" in sl.attrs() for t in result_ticks)
+                chk.ob("C01.R3", "an entry is re-run on its own slot only when it is the execution whose result is being reduced (its invocation has ended)", finished, m=mod, node=c, fn=fn,
+                       instance=f"run-worker:slot-free:{ast.unparse(idv)}",
+                       reason=f"`{holder}` is not selected by the worker id of a step-result tick ({'no TickStepResult parameter in ' + fn.name if not result_ticks else 'selection: ' + sl.text()[:160]}): "
+                              f"its invocation may still be running, so the command starts a second invocation on an occupied slot (more than num_workers at once, invisible in in_progress)")
         elif not ok:
             reason = "id is neither the id of an entry appended on every path to this command nor the id of a live entry"
         chk.ob("C01.R3", "CommandRunWorker is issued only for an entry that is in progress with that id", ok, m=mod, node=c, fn=fn,
@@ -302,6 +324,11 @@ def _removal_excluded_by_flag(fn: ast.AST, cmd_stmt: ast.AST, removal_call: ast.
 
 _P = "packages/llama-index-workflows/src/workflows/runtime/control_loop.py"
 TWINS = [
+    Twin("waiter replay re-runs a still-running execution on its own slot", _P, "                wait_condition.resolved_event = tick.event\n",
+         "                wait_condition.resolved_event = tick.event\n                _running = next((w for w in state.workers[step_name].in_progress if w.event == wait_condition.event), None)\n"
+         "                if _running is not None:\n                    commands.append(CommandRunWorker(step_name=step_name, event=_running.event, id=_running.worker_id))\n                    continue\n", "C01.R3"),
+    Twin("benign: finished execution looked up with a loop", _P, "    this_execution = next(\n        (w for w in worker_state.in_progress if w.worker_id == tick.worker_id), None\n    )\n",
+         "    this_execution = None\n    for _w in worker_state.in_progress:\n        if _w.worker_id == tick.worker_id:\n            this_execution = _w\n            break\n", None),
     Twin("sent snapshot hoisted out of the result loop", _P, *multi(_P, [("    output_event_name: str | None = None\n", "    output_event_name: str | None = None\n    _sent_state = this_execution.shared_state\n"), ("            sent_events = this_execution.shared_state.collected_events.get(\n                result.event_id, []\n            )", "            sent_events = _sent_state.collected_events.get(\n                result.event_id, []\n            )")]), "C01.R3"),
     Twin("capacity off by one", _P, "has_space = len(state.in_progress) < state.config.num_workers", "has_space = len(state.in_progress) <= state.config.num_workers", "C01.R1"),
     Twin("capacity test dropped", _P, "    if has_space:\n        # Assign the smallest", "    if True:\n        # Assign the smallest", "C01.R1"),
